@@ -599,9 +599,14 @@ def decode_resize_contract():
                 ('size', z3.Implies(ret.t, size1 == cnt)),
                 ('limit', z3.Implies(ret.t, z3.ULE(size1, a0['max'].t))),
                 ('covered', z3.Implies(ret.t, z3.ULE(size1 * bv(m), end - a1['pos'].addr))),
-                ('count', z3.Implies(ret.t, z3.ULT(size1, COUNT_MAX)))]
+                ('count', z3.Implies(ret.t, z3.ULT(size1, COUNT_MAX))),
+                # completeness (C03: canonical bytes are accepted): a counter that is present, within the limit and
+                # covered by the rest of the input is never rejected
+                ('accepts', z3.Implies(z3.And(z3.UGE(end - pos, bv(n)), z3.ULE(cnt, a0['max'].t),
+                                              z3.ULE(cnt, z3.UDiv(end - pos - bv(n), bv(m)))), ret.t))]
 
-    return Contract('do_decode_resize', match, requires, ensures, modifies=('v', 'pos'), setup=setup_read, params=('v', 'pos', 'end', 'max'), props=('C07',))
+    return Contract('do_decode_resize', match, requires, ensures, modifies=('v', 'pos'), setup=setup_read,
+                    params=('v', 'pos', 'end', 'max'), props=('C07', 'C03'))
 
 
 def greedy_fixed_contract():
@@ -1040,7 +1045,7 @@ def driver_source():
              '#include <prophy/detail/byte_size.hpp>', '#include <prophy/detail/message.hpp>', DUMMY_TYPES,
              'namespace prophy { namespace detail {', 'using namespace prophy::generated;']
     for e in es:
-        for t in scal + ['En', 'Fx', 'Dy']:
+        for t in scal + ['En', 'Fx', 'Fo', 'Dy']:
             lines.append('template struct decoder<%s, %s>;' % (e, t))
             lines.append('template struct encoder<%s, %s>;' % (e, t))
         for t in ['uint8_t', 'uint16_t', 'uint64_t', 'En', 'Fx', 'Dy']:
